@@ -469,7 +469,11 @@ func c18Gen(t *rapid.T) interface{} {
 	for i := 0; i < n; i++ {
 		switch lib.IntN(t, 0, 7, "lexeme") {
 		case 7: // blanks (or two-byte letters) up to a column where a narrow counter wraps: the next lexeme starts there
-			if padded < 2 && lib.IntN(t, 0, 3, "padNow") == 0 {
+			padN := 3
+			if lib.Tier() == "thorough" {
+				padN = 15 // twenty million programs: lines of 65536 and more runes in under one per cent of them
+			}
+			if padded < 2 && lib.IntN(t, 0, padN, "padNow") == 0 {
 				padded++
 				cur := sb.String()
 				col := utf8.RuneCountInString(cur[strings.LastIndexByte(cur, '\n')+1:])
